@@ -43,6 +43,8 @@ def run(ctx):
     ctx.step(deleter_rules, ctx)
     ctx.step(common.atomic_floors, ctx, "C03.sc", [LR, DEL], floor=20, files=["lr_guarded.hpp"])
     ctx.step(who, ctx)
+    ctx.step(common.init_order, ctx, "C03.init", [LR], floor=4)
+    ctx.step(initial_state, ctx)
     ctx.step(common.witnesses, ctx, "C03.witness", ["C03"])
 
 
@@ -383,3 +385,30 @@ def lr_handlers(ctx, rid="C20.lr"):
                    "" if ok else "a flag is flipped before the first application can throw", fn=f.label, inst=f.qname)
 
 
+
+
+def initial_state(ctx):
+    """both copies start equal: the second copy is constructed from the first"""
+    rid = "C03.initial"
+    ctx.rule(rid, "lr_guarded's constructor builds the second copy from the first (both copies start equal) and starts "
+             "with both reader counters at zero", floor=4)
+    for f in ctx.fb.functions(rec=LR):
+        if f.kind != "ctor" or f.defaulted:
+            continue
+        ini = {i.get("field"): f.s(i.get("init")) for i in f.inits if i.get("field")}
+        r = unwrap(f, ini.get("m_right"))
+        l = unwrap(f, ini.get("m_left"))
+        ok = False
+        if r is not None and r["k"] in CTORS and len(r["args"]) == 1 and path(f, f.s(r["args"][0])) == "this.m_left":
+            ok = True
+        elif r is not None and path(f, r) == "this.m_left":
+            ok = True      # scalar payloads: m_right(m_left) is a plain load
+        ctx.ob(rid, ok, f.where, "m_right is copy-constructed from m_left", "" if ok else
+               "the two copies can start different: readers switch between two histories", fn=f.label, inst=f.qname)
+        for c in COUNTERS:
+            e = unwrap(f, ini.get(c))
+            while e is not None and e["k"] in CTORS and len(e["args"]) == 1:
+                e = unwrap(f, f.s(e["args"][0]))
+            ok = e is not None and e["k"] == "IntegerLiteral" and e["v"] == 0
+            ctx.ob(rid, ok, f.where, "%s starts at zero" % c, "" if ok else "a phantom reader is registered forever: every modify() hangs",
+                   fn=f.label, inst=f.qname)
